@@ -25,6 +25,10 @@ type Report struct {
 	// expressions such as 1<<20): the thresholds and magic values the code
 	// compares against. The checks add them (and their neighbours) to
 	// their length, count and content domains.
+	// ClockSeam: the tree's hooks file offers verifNow; ClockSites: calls of
+	// time.Now/Since/Until routed through it in the instrumented build
+	ClockSeam    bool     `json:"clock_seam"`
+	ClockSites   int      `json:"clock_sites"`
 	ConstInts    []int64  `json:"const_ints"`
 	ConstStrings []string `json:"const_strings"`
 }
